@@ -41,7 +41,7 @@ ORCH = 'chainables.orchestrate'
 
 
 def run(ctx: Ctx):
-  for r in (r1, r2, r3, r4, r5, r6, r7, r8, r9):
+  for r in (r1, r2, r3, r4, r5, r6, r7, r8, r9, r11):
     ctx.guard(r)
   from mlmverif.props import c06
   ctx.include('R-C20-10', '"liveness is a function only of the last recorded heartbeat": the'
@@ -460,6 +460,49 @@ def r5(ctx: Ctx):
   else:
     ctx.fail(rule, ra, 'release_all: if worker.is_available(self): worker.release()',
              'a pool can release workers owned by another pool', node=ra.node)
+  # ... and releases EVERY worker that is this pool's or free: a worker of the loop is passed
+  # over only on the false edge of a test made of ownership tests alone (is_available /
+  # is_locked / acquire_by on it); any further condition (e.g. "no call in flight") leaves owned
+  # workers acquired when the pool-level operation ends
+  heads = [nd for nd in g.nodes if nd.kind == 'for_iter']
+  for h in heads:
+    wv = h.ast.target.id if isinstance(h.ast.target, ast.Name) else None
+    if wv is None:
+      continue
+
+    def pure_ownership(t, wv=wv):
+      cs = t.values if isinstance(t, ast.BoolOp) and isinstance(t.op, ast.And) else [t]
+      return all(isinstance(c_, ast.Call) and isinstance(c_.func, ast.Attribute) and c_.func.attr in _OWN_TESTS
+                 and isinstance(c_.func.value, ast.Name) and c_.func.value.id == wv for c_ in cs)
+
+    def edge_ok(a, b, lab, pure_ownership=pure_ownership):
+      if lab in ('exc', 'close'):
+        return False
+      if a.kind == 'cond' and lab in ('true', 'false'):
+        t_, neg = a.ast, False
+        while isinstance(t_, ast.UnaryOp) and isinstance(t_.op, ast.Not):
+          t_, neg = t_.operand, not neg
+        if pure_ownership(t_) and lab == ('true' if neg else 'false'):
+          return False
+      return True
+
+    body = [s_ for s_, lab in h.succ if lab not in ('exc', 'close', 'exit', 'done', 'false')]
+    rel = lambda nd, wv=wv: any(isinstance(x, ast.Call) and isinstance(x.func, ast.Attribute) and x.func.attr == 'release'
+                                and unparse(x.func.value) == wv for x in cfgm.node_exprs(nd))
+    skipped = None
+    for s_ in body:
+      if s_ is g.exit_ret or rel(s_):
+        continue
+      reach = g.reachable([s_], avoid=rel, edge_ok=edge_ok, include_src=True)
+      if h in reach:
+        skipped = g.path_to(reach, h)
+    if skipped:
+      ctx.fail(rule, ra, 'release_all releases every worker it owns or that is free',
+               'release_all can pass over a worker without the ownership test having failed (' +
+               ' -> '.join(str(x_).split(':', 2)[-1][:40] for x_ in skipped[-3:]) + '): an extra condition keeps a'
+               ' worker this pool owns acquired when the pool-level operation returns or raises', node=ra.node)
+    else:
+      ctx.ok(rule, ra, 'release_all: only a failed ownership test skips a worker', h.ast)
   dom = [x for x in walk_no_nested(ra.node) if isinstance(x, ast.Assign)
          and isinstance(x.value, ast.BoolOp) and isinstance(x.value.op, ast.Or)]
   ok_dom = any(unparse(x.value.values[-1]) in ('self._workers', 'self.all_workers') for x in dom)
@@ -995,12 +1038,47 @@ def r9(ctx: Ctx):
   ctx.floor(rule, 1, n)
 
 
+def r11(ctx: Ctx):
+  rule = 'R-C20-11'
+  ctx.rule(rule, '"a worker that was declared dead is never reported alive again merely because of a late'
+           ' or stale heartbeat, and recorded heartbeats never move backwards": of the registry\'s'
+           ' writers only refresh() is guarded (dead stays dead, max). register() overwrites'
+           ' unconditionally — it is for the SERVER side, where a worker announces itself with its own'
+           ' heartbeat RPC. So register() is called from the server\'s heartbeat handler only; every'
+           ' client-side path that learns of an answered call (incl. its own heartbeat ping) goes'
+           ' through refresh()')
+  repo = ctx.repo
+  allowed = {('chainables.courier_server', 'CourierServer._heartbeat'): 'the worker\'s own heartbeat RPC, handled on the server'}
+  n = 0
+  for fi in repo.all_functions():
+    if fi.module.name.endswith('_test'):
+      continue
+    for c in walk_no_nested(fi.node):
+      if isinstance(c, ast.Call) and isinstance(c.func, ast.Attribute) and c.func.attr == 'register' and (
+          'registry' in unparse(c.func.value)):
+        n += 1
+        key = (fi.module.name.split('._src.')[-1], fi.qualname)
+        if key in allowed:
+          ctx.ok(rule, fi, f'{fi.qualname}: registry.register ({allowed[key]})', c)
+        else:
+          ctx.fail(rule, fi, f'{fi.qualname}: heartbeats learnt by a client go through refresh()',
+                   f'`{unparse(c)[:60]}` writes the registry with the unguarded register() outside the server\'s'
+                   ' heartbeat handler: a late reply overwrites the dead marker (the worker is alive again) and an'
+                   ' older timestamp moves the recorded heartbeat backwards', node=c)
+  ctx.floor(rule, 1, n)
+
+
 from mlmverif.selfcheck import B, OK  # noqa: E402
 
 _U = 'utils/courier_utils.py'
 _W = 'chainables/courier_worker.py'
 _O = 'chainables/orchestrate.py'
 VARIANTS = [
+    B('release-all-keeps-busy-workers', 'chainables/courier_worker.py',
+      '      if worker.is_available(self):\n        worker.release()', '      if worker.is_available(self) and not worker.pendings:\n        worker.release()', 'R-C20-5'),
+    B('answered-ping-registers', 'utils/courier_utils.py',
+      '            _worker_registry.refresh(self.address, state_and_time.time)',
+      '            if state_and_time is self._heartbeat:\n              _worker_registry.register(self.address, state_and_time.time)\n            else:\n              _worker_registry.refresh(self.address, state_and_time.time)', 'R-C20-11'),
     B('stage-loop-release-after-raising-call', 'chainables/orchestrate.py',
       '            del iterating[worker]\n            worker.release()\n            if exc := state.exception():\n              logging.exception(\n                  \'chainable: %s\',\n                  f\'worker {worker} failed with exception: {type(exc)}, {exc}\',\n              )\n              worker_exceptions.append(exc)',
       '            del iterating[worker]\n            if exc := state.exception():\n              logging.exception(\n                  \'chainable: %s\',\n                  f\'worker {worker} failed with exception: {type(exc)}, {exc}\',\n              )\n              worker_exceptions.append(exc)\n            worker.release()', 'R-C20-6'),
